@@ -886,10 +886,17 @@ func ModifyRegister(register *object.Register, in ast.Node) (ast.Node, bool) {
 }
 
 func setupRegister(env *object.Environment, name string, value int64, body ast.Node) (object.Register, ast.Node, bool) {
+	if !env.HasRegisters() {
+		// All registers are in use (e.g more than 8 integer parameters or nested loops): use a plain variable.
+		return object.Register{}, body, false
+	}
 	register := env.MakeRegister(name, value)
 	newBody, ok := ast.Modify(body, func(in ast.Node) (ast.Node, bool) {
 		return ModifyRegister(&register, in)
 	})
+	if !ok {
+		env.ReleaseRegister(register) // not usable for this body, don't leak it.
+	}
 	if log.LogVerbose() {
 		out := strings.Builder{}
 		ps := &ast.PrintState{Out: &out, Compact: true}
@@ -921,13 +928,12 @@ func (s *State) evalForInteger(fe *ast.ForExpression, start *int64, end int64, n
 	if name != "" && !s.NoReg {
 		var ok bool
 		register, newBody, ok = setupRegister(s.env, name, int64(startValue), fe.Body)
-		if !ok {
-			return s.Errorf("for loop register %s shouldn't be modified inside the loop", name)
-		}
-		ptr = register.Ptr()
+		if ok {
+			ptr = register.Ptr()
+		} // else: no register available or the body isn't suitable (e.g. i++ or function literal): use a variable.
 	}
 	for i := startValue; i < endValue; i++ {
-		if s.NoReg && name != "" {
+		if ptr == nil && name != "" {
 			s.env.Set(name, object.Integer{Value: int64(i)})
 		}
 		if ptr != nil {
